@@ -170,6 +170,19 @@ func withRotations(G *simrt.Tape, ks []*Key) []*Key {
 	return ks
 }
 
+// uniqueCrypto drops keys whose cipher and secret repeat an earlier key's: replay
+// claims are made for keys that are unique in their list (a handshake is
+// (key id, salt); under a duplicate the server may match the sibling id).
+func uniqueCrypto(keys []*Key) []*Key {
+	var out []*Key
+	for _, k := range keys {
+		if !configured(out, k) {
+			out = append(out, k)
+		}
+	}
+	return out
+}
+
 // cryptoDup reports whether another key of the list has k's cipher and secret.
 func cryptoDup(keys []*Key, k *Key) bool {
 	for _, o := range keys {
@@ -431,6 +444,7 @@ type tcpServer struct {
 	ln               service.StreamListener
 	Served           bool         // StreamServe returned
 	handlersAtReturn int          // connection handlers still alive when it returned
+	handlersAfter    int          // connection handlers that were entered after it had returned
 	Handled          map[int]bool // connections (ledger ids) that StreamServe passed to the handler
 	handler          service.StreamHandler
 }
@@ -507,6 +521,9 @@ func startTCPServer(rc *RunCtx, w *simnet.World, o tcpServerOpts) *tcpServer {
 	s.Handled = map[int]bool{}
 	handle = func(ctx context.Context, conn transport.StreamConn) {
 		entered++
+		if s.Served {
+			s.handlersAfter++
+		}
 		s.Handled[connIDOf(conn)] = true
 		defer func() { returned++ }()
 		inner(ctx, conn)
